@@ -305,6 +305,11 @@ def main(argv):
     if argv[1] == "--replay":
         return replay(prop, cfg, argv[2])
     tier = argv[1]
+    if not os.environ.get("VERIF_HAVE_REPO_LOCK"):
+        # shared lock: a mutation test (bin/mutate-check) holds it exclusively while /repo is patched
+        _rl = open(os.path.join(ROOT, ".lock-repo"), "w")
+        fcntl.flock(_rl, fcntl.LOCK_SH)
+        globals()["_REPO_LOCK"] = _rl
     if os.environ.get("VERIF_TIER") in ("quick", "thorough") and tier not in ("quick", "thorough"):
         tier = os.environ["VERIF_TIER"]
     seed = int(os.environ.get("VERIF_SEED", "1") or 1)
